@@ -92,6 +92,10 @@ impl Layout {
 
 /// Builds a real mmap-backed guest memory for the layout (anonymous regions).
 pub fn build_mmap(l: &Layout) -> Result<GuestMemoryMmap<()>, String> {
+    if l.regs.is_empty() {
+        // the map without regions (what is left when everything was unplugged)
+        return Ok(GuestMemoryMmap::new());
+    }
     let ranges: Vec<(GuestAddress, usize)> = l.regs.iter().map(|(s, n)| (GuestAddress(*s), *n as usize)).collect();
     GuestMemoryMmap::<()>::from_ranges(&ranges).map_err(|e| format!("{:?}", e))
 }
@@ -163,7 +167,26 @@ pub fn build_mmap_route(l: &Layout, route: usize) -> Result<GuestMemoryMmap<()>,
 /// sequence of valid insertions / removals that leads to it may not be refused.
 pub fn build_mmap_route_checked(ctx: &crate::report::Ctx, prop: &str, l: &Layout, route: usize) -> Option<GuestMemoryMmap<()>> {
     match build_mmap_route(l, route) {
-        Ok(m) => Some(m),
+        Ok(m) => {
+            // an update that would make the map invalid must be refused (the queries below
+            // rely on sorted, disjoint regions): a region covering the whole layout and more
+            if let (Some(first), Some(last)) = (l.regs.first(), l.regs.last()) {
+                let start = first.0.saturating_sub(1);
+                let end = (last.0 + (last.1 - 1)).saturating_add(1);
+                if end - start < (1 << 24) {
+                    if let Ok(r) = GuestRegionMmap::<()>::from_range(GuestAddress(start), (end - start + 1) as usize, None) {
+                        if m.insert_region(std::sync::Arc::new(r)).is_ok() {
+                            ctx.fail(
+                                &format!("{}/map-built-by-updates/overlapping-insertion-accepted", prop),
+                                &format!("layout {}: inserting a region [{:#x},+{}) that covers every existing region was accepted", l.describe(), start, end - start + 1),
+                                serde_json::json!({"layout": l.regs, "route": route}),
+                            );
+                        }
+                    }
+                }
+            }
+            Some(m)
+        }
         Err(e) => {
             if route != 0 && build_mmap(l).is_ok() {
                 ctx.fail(
